@@ -6,11 +6,36 @@ ROOT = os.path.dirname(os.path.dirname(os.path.abspath(__file__)))
 
 # id -> (level, technique, level text, note, design ref)
 CHECKS = {
+    "C01": ("exploration",
+            "proptest over choice-tape expression DAGs; metamorphic oracle: reference evaluation of original vs simplified + deep type check",
+            "Generated-input search over well-typed expression DAGs (all operators, width/literal boundary classes, rule-shaped operand choices) simplified in three modes; the result must keep the type, type-check node by node and evaluate like the original under every (<=12 symbol bits) or 24 sampled assignments in an independent evaluator. Sampling, not proof.",
+            "Trusts the harness' reference evaluator and type rules; both sides of the comparison are judged by it, never by patronus' evaluator.",
+            "DESIGN.md 5/C01"),
+    "C05": ("exploration",
+            "proptest over choice-tape expressions/commands; oracle: independent strict SMT-LIB sort checker + evaluator vs reference evaluator",
+            "Every generated command text from serialize_cmd is lexed, sort-checked strictly (1-bit symbols declared Bool) and evaluated by an independent SMT-LIB 2.6 front end; identifiers must read back verbatim and values must equal the reference evaluator's under all/sampled assignments. Sampling, not proof.",
+            "Trusts smtref (own SMT-LIB reader/checker/evaluator, unit-tested) and refeval.",
+            "DESIGN.md 5/C05"),
     "C06": ("exploration",
             "exhaustive operator grid + proptest over choice tapes vs independent BigUint evaluator",
             "Generated-input search: an exhaustive operator x width x corner-operand grid plus seeded random expression DAGs, each judged against an independent big-integer implementation of SMT-LIB semantics, including canonicity of the returned value and short-circuit evaluation. Sampling, not proof; the grid is exhaustive within its stated bound.",
             "Trusts the harness' reference evaluator (unit-tested), proptest, rustc. Known baa-rooted defects are listed in known_findings.jsonl.",
             "DESIGN.md 5/C06"),
+    "C12": ("exploration",
+            "stateful model-based proptest: construction histories vs shadow structural map",
+            "Histories of up to 300 Context construction calls with bulk insertions and re-issues are replayed against a shadow map structural-key <-> ExprRef; every call and periodic audits check canonicity, stability of every reference ever obtained, and the true/false constants. Sampling of histories, not proof.",
+            "Trusts the harness' structural key function (mirrors the documented builder normalisations).",
+            "DESIGN.md 5/C12"),
+    "C13": ("exploration",
+            "proptest over batches and permutations; differential oracle between call histories / cache containers; watchdog for termination",
+            "Batches of expressions sharing sub-terms are simplified alone, in permuted batch order, with sparse and dense caches and repeatedly; all results must be the same reference and idempotent. Termination is judged by a 10 s + 60 s re-run watchdog (typical case < 1 ms). Sampling, not proof; non-termination can only be observed up to the watchdog bound.",
+            "Elapsed time > 60 s for one batch is taken as non-termination (4 orders of magnitude margin).",
+            "DESIGN.md 5/C13"),
+    "C14": ("exploration",
+            "proptest round-trip writer->reader, independent value printer->reader, single-edit malformed inputs",
+            "Round-trips every SmtCommand variant and generated terms through serialize_cmd and parse_expr/parse_command/read_command (equivalence judged by the reference evaluator), reads model values printed in solver styles by an independent printer, and feeds single-edit malformed texts (must be Err or keep the original meaning; panics fail). Sampling, not proof.",
+            "Trusts smtref's printer/reader (self-checked on every case) and refeval. The end-to-end get_value path against the reference solver is part of the solver-backed checks.",
+            "DESIGN.md 5/C14"),
 }
 
 ALL = ["C%02d" % i for i in range(1, 21)]
